@@ -34,6 +34,7 @@ VARIANTS = {
     "dflt":   dict(cflags=SAN),
     "dfuzz":  dict(cflags=FUZZ),
     "extra":  dict(cflags=SAN, extra_cflags="-DEAV_EXTRA"),
+    "uchar":  dict(cflags=SAN, extra_cflags="-funsigned-char"),     # plain char unsigned, as on ARM / PowerPC
     "efuzz":  dict(cflags=FUZZ, extra_cflags="-DEAV_EXTRA"),
     "plain":  dict(cflags=PLAIN),
     "pextra": dict(cflags=PLAIN, extra_cflags="-DEAV_EXTRA"),
